@@ -62,6 +62,17 @@ add("C12", "model_checking", "svmc-E2",
     "I/O errors from the underlying reader are outside the chunking alphabet; reads never return 0 before EOF.",
     "DESIGN.md 4/C12")
 
+add("C02", "exploration", "svmc-E1",
+    "bounded-exhaustive enumeration of abstract mapping models written by an independent encoder, decoded by the real code",
+    "Every mapping structure (<=3 lines x <=3 slots of {empty,1,4,5}-field segments; thorough also 4x2, 2x4, 5x1) under three value patterns incl. unsorted columns and duplicates; every combination of a 6-value delta menu on all five fields of a second segment in three placements; every subset of nine optional keys x 14 key orders x 3 junk headers; lenient values (null sources, numeric names, debug id precedence, sourceRoot x source). Decoded through decode_slice, decode(reader) and the typed entry points and compared with the model.",
+    "Documents keep running sums inside u32 and indices in range (well-formed); cases the statement is silent on are not asserted.",
+    "DESIGN.md 4/C02")
+add("C06", "fault_enumeration", "svmc-E1",
+    "fault enumeration: every fault of a menu at every site of every small well-formed base, and pairs",
+    "About 1000 bases (<=2 lines x <=2 segments, array sizes {0,1,2}^2) x every structural fault at every site (arity 2/3/6/7; source/name index to len, len+1, -1, -len-1, +-2^32+valid, 2^33+valid; continuation bit on the last digit; 14/15-digit field) and every non-alphabet ASCII byte and six multi-byte characters at every offset; every ordered pair of structural faults at different sites and structural x foreign pairs on two-segment bases. decode_slice must return Err; bases must decode with all references resolving.",
+    "The inserted character reaches the decoder unescaped because serde_json unescapes the JSON string.",
+    "DESIGN.md 4/C06")
+
 NOT_YET = {}
 
 def main():
